@@ -66,10 +66,16 @@ def pick_limit(rng, data, sizes):
     return int(round(60 * 10 ** rng.random()))
 
 
-def gen_case(rng, depth, small=False):
+TIMED_SHARE = 0.35      # share of the generated cases made to exercise the clock (machgen.timify)
+
+
+def gen_case(rng, depth, small=False, timed=False):
     g = machgen.Gen(rng, max_depth=depth)
     m = g.machine()
     case = {"machine": m, "input": machgen.gen_input(rng), "plans": g.fns}
+    if timed:
+        machgen.timify(rng, case["machine"], case["plans"], case["input"])
+        case["timed"] = True
     if small and isinstance(case["input"], dict) and rng.random() < 0.4:
         # padded input: 450-900 characters, the limit 345.. above it but below twice its size.  A state that copies
         # its input into its result (a worker echoes its payload) is refused, while the Error Output — whose Cause
@@ -81,6 +87,21 @@ def gen_case(rng, depth, small=False):
     elif small:
         case["max_data"] = pick_limit(rng, case["input"], run_one(case).sizes)
     return case
+
+
+def timed_dist(chk, case, m, prefix="timed"):
+    """what the compared run exercised of the clock"""
+    kinds = [e[0] for e in m.get("history", [])]
+    if case.get("timed"):
+        chk.dist(prefix + ".cases")
+    if "LambdaFunctionTimedOut" in kinds:
+        chk.dist(prefix + ".task_timed_out", kinds.count("LambdaFunctionTimedOut"))
+    if "WaitStateExited" in kinds:
+        chk.dist(prefix + ".waits_completed", kinds.count("WaitStateExited"))
+    if kinds.count("LambdaFunctionScheduled") > len(set(cj(e[2]) for e in m["history"] if e[0] == "LambdaFunctionScheduled")):
+        chk.dist(prefix + ".runs_with_a_repeated_request")
+    if enginerun.model_ms(m.get("endTime", 0)) > 0:
+        chk.dist(prefix + ".runs_taking_time")
 
 
 def run_one(case):
@@ -211,7 +232,8 @@ def run(chk):
         cases.append(c)
     cases.extend(pipeline_matrix())
     for i in range(n):
-        cases.append(gen_case(chk.rng, chk.rng.choice([0, 1, depth]), small=chk.rng.random() < SMALL_SHARE))
+        cases.append(gen_case(chk.rng, chk.rng.choice([0, 1, depth]), small=chk.rng.random() < SMALL_SHARE,
+                              timed=chk.rng.random() < TIMED_SHARE))
     extra, spans, asked = [], [], []
     for c in cases:
         r = run_one(c)
@@ -275,9 +297,15 @@ def run(chk):
             # the Cause text is outside every property (and masked here), so the model cannot tell the verdict
             chk.dist("smalllimit.cause_text_decides.not_compared")
             continue
-        if m.get("multiFail"):
-            # several branches of one fan-out fail: which one fails first (and hence whether the failure is retried /
-            # caught) depends on timing, which the reference semantics does not model — C06 covers these families
+        if enginerun.oracle_order_ambiguous(m):
+            # concurrent branches put the same question to the same worker at different instants: which of them gets the
+            # worker's n-th answer is the arrival order, which the (branch by branch) reference semantics does not have
+            chk.dist("oracle_order.not_compared")
+            continue
+        if m.get("tieFail"):
+            # several branches of one fan-out fail at the same instant (or an ItemSelector fails after earlier iterations
+            # ran): which failure is the fan-out's is then not decided by the clock — C06 covers these families.  When they
+            # fail at different instants the earliest is the fan-out's (the timed reference semantics) and is compared.
             chk.dist("multifail.not_compared")
             continue
         if r.status not in ("SUCCEEDED", "FAILED"):
@@ -292,10 +320,12 @@ def run(chk):
             continue
         # --- the history: every StateEntered / StateExited the engine wrote, and the number of task requests, against
         # the log of the reference semantics
-        mode, hp, nev = enginerun.compare_history(c["machine"], m, r.history, len(r.requests))
+        timed_dist(chk, c, m)
+        mode, hp, nev = enginerun.compare_history(c["machine"], m, r.history, len(r.requests), timed=True,
+                                                  request_instants=[q["t"] for q in r.requests])
         chk.dist("history.%s" % mode)
         chk.dist("history.%s.events" % mode, nev)
-        nmode, np_ = enginerun.compare_notifications(m, [n["body"]["detail"] for n in r.notifications], c["input"])
+        nmode, np_ = enginerun.compare_notifications(m, [n["body"]["detail"] for n in r.notifications], c["input"], timed=True)
         chk.dist("notifications.%s" % nmode)
         hp = hp + np_
         if hp:
@@ -321,7 +351,13 @@ def run(chk):
                        "notifications (RUNNING with the input, the terminal status with output / error) and the number of task "
                        "requests are compared with what Asl.run predicts — as sequences when no fan-out was entered, as multisets "
                        "when fan-outs ran and none failed, and (a fan-out attempt failed) the engine's Execution…, StateExited and "
-                       "LambdaFunctionSucceeded events must be among the model's (history.* in the distribution)" % depth)
+                       "LambdaFunctionSucceeded events must be among the model's; timed: the reference semantics has a clock (worker delays from "
+                       "the plans, Wait targets, retry intervals, Task TimeoutSeconds, concurrent branches joined at the latest end, "
+                       "the earliest failure of a fan-out wins) and every compared event carries its instant (ms, exact), as do the "
+                       "requests' arrival at the workers and the stopDate; a third of the cases are made to exercise the clock "
+                       "(machgen.timify: TimeoutSeconds with delays on both sides of the deadline, all four Wait forms, odd reply "
+                       "delays); runs where concurrent branches put the same question to one worker at different instants are not "
+                       "compared (oracle_order), nor ties between failing branches (tieFail) (history.* in the distribution)" % depth)
 
 
 def replay(chk, path):
